@@ -145,7 +145,7 @@ func main() {
 	wit.EnsureMetrics(nil)
 	run := ev.Start("C06", "fault_enumeration")
 	defer run.Finish()
-	run.Rule("crash points, enumerated exhaustively: (1) every database-driver operation (begin, query, exec, commit, rollback; positions learned from an unkilled run of the same script), before and after the real call, for the scripts {first use, growth, refresh, growth after a refused update, two logs interleaved} x {fresh database, table already holding another log's row}: the child SIGKILLs itself there; (2) every storage syscall (pwrite64, fsync, fdatasync, unlink, ftruncate and friends; count learned from a traced run) via strace signal injection; (3, thorough) random instants in a stream of updates. After each kill the file is reopened by this process with the plain production driver: per log the stored checkpoint must be hash-equal to the last acknowledged one or be the complete cosigned form of the single in-flight request; then a fork must be refused and the honest next step accepted through the real Update. evaluations = killed child runs verified; nontrivial = distinct (script, table state, operation or syscall index, phase)")
+	run.Rule("crash points, enumerated exhaustively: (1) every database-driver operation (begin, query, exec, commit, rollback; positions learned from an unkilled run of the same script), before and after the real call, for the scripts {first use, growth, refresh, growth after a refused update, two logs interleaved} x {fresh database, table already holding another log's row}: the child SIGKILLs itself there; (2) every storage syscall (pwrite64, fsync, fdatasync, unlink, ftruncate and friends; count learned from a traced run) via strace signal injection; (3, thorough) random instants in a stream of updates; (4) the repository's own cmd/omniwitness binary (built from the working tree, real flags, real pool setting, real key wiring; only its embedded log list is replaced) receives updates through a stub bastion and is SIGKILLed while a request is in flight, restarted on the same file and judged through its HTTP read API. After each kill the file is reopened by this process with the plain production driver: per log the stored checkpoint must be hash-equal to the last acknowledged one or be the complete cosigned form of the single in-flight request; then a fork must be refused and the honest next step accepted through the real Update. evaluations = killed child runs verified; nontrivial = distinct (script, table state, operation or syscall index, phase)")
 	run.Assume("crash = SIGKILL of the process on a running kernel; power loss, torn writes and missing fsync are not observable this way", "acknowledgements are single write(2) calls to an append-only file")
 	run.Floor("driver_points", 150)
 	run.Floor("syscall_points", 100)
@@ -298,6 +298,8 @@ func main() {
 		os.Remove(db + "-journal")
 	})
 
+	realBinary(run, dir)
+
 	// (3) random instants
 	if run.Thorough() {
 		run.Exhaustive(false)
@@ -358,4 +360,11 @@ func main() {
 		})
 	}
 	_ = bytes.Equal
+}
+
+func tailStr(s string, n int) string {
+	if len(s) > n {
+		return s[len(s)-n:]
+	}
+	return s
 }
